@@ -5,7 +5,7 @@
    S = specification models (C14/Model.v).  All statements hold for every length / width / shape. *)
 From Coq Require Import ZArith QArith Qround List Bool Sorted Permutation.
 Import ListNotations.
-From PV Require Import Generated.Smooth Generated.Rebin Generated.Uniq Generated.Median C14.Model C14.Proofs C14.ProofsUniq C14.ProofsRebin C14.ProofsMedian C14.ProofsLift.
+From PV Require Import Generated.Smooth Generated.Rebin Generated.Uniq Generated.Median C14.Model C14.Proofs C14.ProofsUniq C14.ProofsRebin C14.ProofsMedian C14.ProofsLift C14.ProofsND C14.ProofsUniqValues.
 Open Scope Z_scope.
 
 (* ================================================================== smooth *)
@@ -386,6 +386,135 @@ Theorem C14_rebin_axes_commute_in_shape : forall (T : Type) (o : ops T) s (x : l
 Proof. exact rebin_axes_commute_in_shape. Qed.
 Print Assumptions C14_rebin_axes_commute_in_shape.
 
+
+(* ================================================================== round 5 *)
+
+(* ---- rebin for every rank, by induction over the list of axes ---- *)
+
+(* the plan of the axis loop GENERATED from rebin.py (number of passes; the list position used in pass k for d, d0,
+   new_shape, the three slice lists and the block sum; scratch lists re-created in every pass; each pass fed by the
+   previous one, dtype kept) is the reference plan -- pass k acts on nesting level k -- for every rank *)
+Theorem C14_rebin_axis_plan : forall rank, axis_plan_ok rank = true.
+Proof. exact axis_plan_ok_true. Qed.
+Print Assumptions C14_rebin_axis_plan.
+
+(* M (generated expressions, generated plan, generated shape tests) = S (integer-subscript IDL rule axis by axis),
+   for arrays of every rank *)
+Theorem C14_rebin_nd_refines_spec : forall k s n (x : ndT Q n) d, rebin_nd k s n x d = rebin_nd_spec k s n x d.
+Proof. exact rebin_nd_refines. Qed.
+Print Assumptions C14_rebin_nd_refines_spec.
+Theorem C14_rebin_nd_ops_agree : forall (T : Type) (oM oS : ops T) n, ops_agree oM oS -> ops_agree (ops_nd oM n) (ops_nd oS n).
+Proof. exact (@ops_nd_agree). Qed.
+Print Assumptions C14_rebin_nd_ops_agree.
+
+(* "axis by axis": the leading axis first, with the element rules acting element-wise on the (n-1)-D sub-arrays,
+   then the remaining axes inside every sub-array *)
+Theorem C14_rebin_nd_axis_by_axis : forall k s n (x : ndT Q (S n)) a r,
+  rebin_nd_axes (@rebin_axis_spec) ops_elem k s (S n) x (a :: r)
+  = map (fun sub => rebin_nd_axes (@rebin_axis_spec) ops_elem k s n sub r)
+        (rebin_axis_spec (ops_nd (ops_elem k) n) s x a).
+Proof. exact (fun k s n x a r => eq_refl). Qed.
+Print Assumptions C14_rebin_nd_axis_by_axis.
+
+(* exactly the requested shape, at every nesting level *)
+Theorem C14_rebin_nd_shape : forall k s n (x : ndT Q n) d y,
+  Forall (fun a => 0 <= a) d -> rebin_nd k s n x d = RN y -> has_shape n y d.
+Proof. exact rebin_nd_shape. Qed.
+Print Assumptions C14_rebin_nd_shape.
+
+(* ValueError exactly when the rank differs or some axis has a non-integral factor *)
+Theorem C14_rebin_nd_rejects : forall k s n (x : ndT Q n) d,
+  rebin_nd k s n x d = RNValueError <-> ~ Forall2 factor_ok (shape_nd n x) d.
+Proof. exact rebin_nd_rejects. Qed.
+Print Assumptions C14_rebin_nd_rejects.
+Theorem C14_rebin_nd_rejects_rank_change : forall k s n (x : ndT Q n) d, length d <> n -> rebin_nd k s n x d = RNValueError.
+Proof. exact rebin_nd_rejects_rank_change. Qed.
+Print Assumptions C14_rebin_nd_rejects_rank_change.
+
+(* ranks 1, 2, 3 of the any-rank model are rebin1 / rebin2 / rebin3 (all earlier theorems apply to them) *)
+Theorem C14_rebin_nd_is_rebin123 : forall k s,
+  (forall x d, rebin_nd k s 1 x d = conv1 (rebin1 k s x d)) /\
+  (forall x d, rebin_nd k s 2 x d = conv2 (rebin2 k s x d)) /\
+  (forall x d, rebin_nd k s 3 x d = conv3 (rebin3 k s x d)).
+Proof. exact rebin_nd_is_rebin123. Qed.
+Print Assumptions C14_rebin_nd_is_rebin123.
+
+(* the 1-D kernel lifted to any depth: the leading-axis pass of an (n+1)-D array with sub-arrays of extents c acts
+   on every line x[:, j1, ..., jn] as the 1-D rule *)
+Theorem C14_rebin_lifted_axis_linewise : forall (T : Type) (o : ops T) sample a n (x : list (ndT T n)) (c p : list nat),
+  x <> [] -> Forall (extents T n c) x -> Forall2 lt p c ->
+  lineN T o n p (rebin_axis_spec (ops_nd o n) sample x a) = rebin_axis_spec o sample (lineN T o n p x) a.
+Proof. exact lifted_axis_linewise. Qed.
+Print Assumptions C14_rebin_lifted_axis_linewise.
+
+(* ---- median with a width: every width ---- *)
+
+(* 2-D, every odd width up to the number of elements: M = S.  Where the window does not fit there is no interior
+   point; a one-row / one-column image comes back unchanged *)
+Theorem C14_median_filter2_refines_spec_size : forall x width,
+  Z.odd width = true -> 1 <= width <= lenZ x * Z.of_nat (ncols x) ->
+  median_filter2 x width = F2Ok (median_filter2_spec x width).
+Proof. exact median_filter2_refines_spec_size. Qed.
+Print Assumptions C14_median_filter2_refines_spec_size.
+Theorem C14_median_filter2_no_interior : forall x width,
+  Z.odd width = true -> 1 <= width <= lenZ x * Z.of_nat (ncols x) ->
+  (lenZ x < width \/ Z.of_nat (ncols x) < width) ->
+  median_filter2 x width = F2Ok (map (fun a => map (fun b => get2 x (Z.of_nat a) (Z.of_nat b)) (seq 0 (ncols x)))
+                                     (seq 0 (length x))).
+Proof. exact median_filter2_no_interior. Qed.
+Print Assumptions C14_median_filter2_no_interior.
+(* 1-D: ValueError exactly when the kernel min(width, n) handed to scipy is even (or < 1): every even width <= n *)
+Theorem C14_median_filter1_rejects : forall xs width,
+  median_filter1 xs width = F1ValueError <-> (Z.even (Z.min width (lenZ xs)) = true \/ Z.min width (lenZ xs) < 1).
+Proof. exact median_filter1_rejects. Qed.
+Print Assumptions C14_median_filter1_rejects.
+Theorem C14_median_filter1_even_width_rejected : forall xs width,
+  Z.even width = true -> width <= lenZ xs -> median_filter1 xs width = F1ValueError.
+Proof. exact median_filter1_even_width_rejected. Qed.
+Print Assumptions C14_median_filter1_even_width_rejected.
+(* an odd window wider than an odd-length array: everything is edge, the array comes back unchanged *)
+Theorem C14_median_filter1_wide_identity : forall xs width,
+  Z.odd width = true -> Z.odd (lenZ xs) = true -> lenZ xs < width -> median_filter1 xs width = F1Ok xs.
+Proof. exact median_filter1_wide_identity. Qed.
+Print Assumptions C14_median_filter1_wide_identity.
+
+(* ---- uniq: what is selected, for any sorting index ---- *)
+
+(* x[uniq(x, index)] = the last element of every run of x[index]: strictly increasing, exactly the distinct values
+   of x[index] -- whichever index sorts x (any tie-breaking, any sorting permutation) *)
+Theorem C14_uniq_indexed_values_int : forall x index,
+  index <> [] -> is_sortedb Z.leb (take Z 0 x index) = true -> all_same neqbZ (take Z 0 x index) = false ->
+  let vals := take Z 0 x (uniq_indexed Z gneqbZ_indexed 0 x index) in
+  vals = run_values Z neqbZ (take Z 0 x index) /\
+  StronglySorted Z.lt vals /\
+  (forall v, In v (take Z 0 x index) <-> In v vals).
+Proof. exact uniqZ_indexed_values. Qed.
+Print Assumptions C14_uniq_indexed_values_int.
+Theorem C14_uniq_indexed_values_float : forall x index,
+  index <> [] -> is_sortedb Qle_bool (take Q 0%Q x index) = true -> all_same neqbQ (take Q 0%Q x index) = false ->
+  let vals := take Q 0%Q x (uniq_indexed Q gneqbQ_indexed 0%Q x index) in
+  vals = run_values Q neqbQ (take Q 0%Q x index) /\
+  StronglySorted (fun a b => Qle_bool a b = true /\ neqbQ a b = true) vals /\
+  (forall v, In v (take Q 0%Q x index) -> exists u, In u vals /\ (v == u)%Q) /\
+  (forall u, In u vals -> In u (take Q 0%Q x index)).
+Proof. exact uniqQ_indexed_values. Qed.
+Print Assumptions C14_uniq_indexed_values_float.
+Theorem C14_uniq_values_int : forall l, l <> [] -> is_sortedb Z.leb l = true ->
+  take Z 0 l (uniq Z gneqbZ_plain l) = run_values Z neqbZ l.
+Proof. exact uniqZ_values. Qed.
+Print Assumptions C14_uniq_values_int.
+
+(* ---- smooth: the bit-exact comparison used by the correspondence run ---- *)
+
+(* an exact mean that is itself a double (1.0, an integer, a short dyadic) is accepted only as that very number;
+   and the exact value is always accepted *)
+Theorem C14_rounds_to_exact : forall q r, representable q = true -> rounds_to q r = true -> (q == r)%Q.
+Proof. exact rounds_to_exact. Qed.
+Print Assumptions C14_rounds_to_exact.
+Theorem C14_rounds_to_refl : forall q, rounds_to q q = true.
+Proof. exact rounds_to_refl. Qed.
+Print Assumptions C14_rounds_to_refl.
+
 (* ================================================================== non-vacuity *)
 
 Example C14_example_smooth :
@@ -405,3 +534,27 @@ Example C14_example_median :
   median_plain [1#1; 5#1; 3#1; 2#1]%Q false = (3#1)%Q /\
   median_filter1 [1#1; 5#1; 3#1; 2#1; 9#1; 0#1]%Q 3 = F1Ok [1#1; 3#1; 3#1; 3#1; 2#1; 0#1]%Q.
 Proof. split; vm_compute; reflexivity. Qed.
+
+(* round 5 *)
+Example C14_example_rebin_nd :
+  rebin_nd DFloat false 4 [[[[1#1; 2#1]]; [[3#1; 4#1]]]]%Q [1; 2; 2; 4]
+  = RN (n:=4) [[[[1#1; 3#2; 2#1; 2#1]; [1#1; 3#2; 2#1; 2#1]]; [[3#1; 7#2; 4#1; 4#1]; [3#1; 7#2; 4#1; 4#1]]]]%Q /\
+  rebin_nd DFloat false 4 [[[[1#1; 2#1]]; [[3#1; 4#1]]]]%Q [1; 2; 4] = RNValueError /\
+  axis_plan_ok 4 = true.
+Proof. repeat split; vm_compute; reflexivity. Qed.
+Example C14_example_one_row_median :
+  median_filter2 [[1#1; 9#1; 2#1; 8#1; 3#1]]%Q 3 = F2Ok [[1#1; 9#1; 2#1; 8#1; 3#1]]%Q /\
+  median_filter1 [1#1; 9#1; 2#1; 8#1]%Q 2 = F1ValueError /\
+  median_filter1 [1#1; 9#1; 2#1]%Q 5 = F1Ok [1#1; 9#1; 2#1]%Q.
+Proof. repeat split; vm_compute; reflexivity. Qed.
+Example C14_example_uniq_values :
+  let x := [5; 1; 3; 1; 5; 3; 3] in
+  (take Z 0 x (uniq_indexed Z gneqbZ_indexed 0 x [1; 3; 2; 5; 6; 0; 4]) = [1; 3; 5] /\
+   take Z 0 x (uniq_indexed Z gneqbZ_indexed 0 x [3; 1; 6; 5; 2; 4; 0]) = [1; 3; 5]) /\
+  is_sortedb Z.leb (take Z 0 x [3; 1; 6; 5; 2; 4; 0]) = true /\ all_same neqbZ (take Z 0 x [3; 1; 6; 5; 2; 4; 0]) = false.
+Proof. repeat split; vm_compute; reflexivity. Qed.
+Example C14_example_rounds_to :
+  representable (1#1) = true /\ rounds_to (1#1) (9007199254740991 # 9007199254740992) = false /\
+  rounds_to (1#3) (6004799503160661 # 18014398509481984) = true /\
+  rounds_to (1#3) (6004799503160663 # 18014398509481984) = false.
+Proof. repeat split; vm_compute; reflexivity. Qed.
